@@ -45,4 +45,13 @@ def scan_instances(tier, fam='scan', extra_defs=None, safety=False):
 
 def instances(build, tier, seed):
     META['bounds']['scan'] = '257 concrete first bytes (incl. EOF) x symbolic continuation, N=%d bytes per token' % (4 if tier == 'quick' else 6)
-    return scan_instances(tier)
+    L = scan_instances(tier)
+    nn = 5 if tier == 'quick' else 7
+    L.append(Inst('nextchar.n%d' % nn, 'h_nextchar.c', {'N': nn}, units=['token', 'util'], unwind=nn + 3, family='nextchar',
+                  timeout=120 if tier == 'quick' else 900, bound={'bytes': nn, 'splices': 'anywhere'}))
+    L.append(Inst('keyword.len14', 'h_keyword.c', {'LEN_': 14}, units=['scan', 'token', 'util', 'map'], overrides=['error'], unwind=17,
+                  unwindset=['main.3:75', 'strcmp.0:17', 'keyword.0:9'], family='keyword', timeout=300 if tier == 'quick' else 900,
+                  bound={'identifier_bytes': 14}))
+    META['bounds']['nextchar'] = 'all byte strings of length <= %d, backslash-newline anywhere' % nn
+    META['bounds']['keyword'] = 'all identifiers of <= 14 bytes (the longest keyword has 14)'
+    return L
